@@ -112,6 +112,24 @@ Theorem C07_object_shell_accepted : forall entity, verdict_d (compile_object_she
 Proof. exact object_shell_accepted. Qed.
 Print Assumptions C07_object_shell_accepted.
 
+(* ---- whole files: any number of declarations, objects and oneofs with any number of properties
+   (each property contributes what it contributes alone: conversion reads neither the import list nor the
+   errors recorded so far).  Without list requests the converter does not panic and every output file
+   links; a file of in-language declarations (minus the recorded gaps) is accepted; and it stays accepted
+   when any declarations are removed: nothing depends on an unrelated declaration being present *)
+Theorem C07_file_total_links_partial : forall ds, no_list_requests ds ->
+  file_verdict ds <> VPanic /\ file_verdict ds <> VLinkErr.
+Proof. exact file_total_links. Qed.
+Print Assumptions C07_file_total_links_partial.
+Theorem C07_file_accepted_partial : forall ds,
+  no_list_requests ds -> forallb decl_in_language ds = true -> file_verdict ds = VOk.
+Proof. exact file_accepted. Qed.
+Print Assumptions C07_file_accepted_partial.
+Theorem C07_file_isolation : forall ds ds', no_list_requests ds -> forallb decl_in_language ds = true ->
+  (forall d, In d ds' -> In d ds) -> file_verdict ds' = VOk.
+Proof. exact file_isolation. Qed.
+Print Assumptions C07_file_isolation.
+
 (* services: full statement *)
 Definition C07_service_full_statement : Prop := service_full_statement.
 (* refuted: a method with a list request panics in SetExtension (recorded finding) *)
